@@ -34,7 +34,8 @@ def dump_mir(crate):
     env = dict(os.environ)
     env["CARGO_NET_OFFLINE"] = "true"
     env.pop("RUSTUP_TOOLCHAIN", None)
-    cmd = ["cargo", "+nightly", "rustc", "--offline", "-p", pkg, "--lib", "--target-dir", target, "--",
+    feats = {"texcraft-stdext": ["--features", "color"]}.get(pkg, [])  # does not compile without it (pre-existing)
+    cmd = ["cargo", "+nightly", "rustc", "--offline", "-p", pkg, "--lib"] + feats + ["--target-dir", target, "--",
            "-Zunpretty=mir", "-C", "debug-assertions=off", "-C", "overflow-checks=on"]
     p = subprocess.run(cmd, cwd=REPO, env=env, stdout=subprocess.PIPE, stderr=subprocess.PIPE)
     text = p.stdout.decode(errors="replace")
@@ -240,6 +241,14 @@ def interpret(prog, o, fn, consts):
         if c.is_const and c.val:
             return "panic"
     if len(paths) != 1:
+        if o.get("env_models"):
+            # nondeterministic environment stubs: the violation exists if some stub outcome violates the post-condition
+            bad = 0
+            for (s, ret) in paths:
+                ok = o["post"](symargs, ret, s) if o.get("post_state") else o["post"](symargs, ret)
+                if not (ok.is_const and ok.val):
+                    bad += 1
+            return [f"{len(paths)} stub outcomes", f"{bad} violate the post-condition"]
         raise ValueError(f"{len(paths)} paths in concrete interpretation")
     return flatten(paths[0][1])
 
@@ -307,7 +316,8 @@ def find_target(prog, spec):
     cands = [f for f in cands if f.kind == "fn"]
     if not cands:
         raise Unsupported(f"function {spec} not found in the MIR dump of {crate}")
-    return cands[0]
+    exact = [f for f in cands if f.path == name]
+    return (exact or cands)[0]
 
 
 def run_obligation(prop, o, tier):
@@ -417,7 +427,7 @@ def run_obligation_one(prop, o, tier, bind):
     if verdict == "holds" and o.get("post"):
         viol = []
         for (s, ret) in paths:
-            ok = o["post"](args, ret)
+            ok = o["post"](args, ret, s) if o.get("post_state") else o["post"](args, ret)
             c = tm.and_(*(s.pc + [tm.not_(ok)]))
             if not (c.is_const and not c.val):
                 viol.append(c)
@@ -573,6 +583,17 @@ def replay_file(prop, path):
     ex.const_env = o.get("const_generics", {})
     paths = ex.run(fn, argvals, State())
     panicked = any((lambda c: c.is_const and c.val)(tm.and_(*ob["pc"])) for ob in ex.obligations)
+    if not panicked and len(paths) > 1 and o.get("env_models"):
+        nbad = 0
+        for (s, ret) in paths:
+            ok = o["post"](args, ret, s) if o.get("post_state") else o["post"](args, ret)
+            if not (ok.is_const and ok.val):
+                nbad += 1
+        print(f"replay {path}: {len(paths)} stub outcomes, {nbad} violate the post-condition")
+        if nbad:
+            print(f"VIOLATION property={prop['id']} replay={path}")
+            return 1
+        return 0
     mine = "panic" if panicked else flatten(paths[0][1])
     nat = o.get("native")
     got = None
@@ -584,7 +605,7 @@ def replay_file(prop, path):
             return 2
     bad = panicked
     if not panicked and o.get("post"):
-        ok = o["post"](args, paths[0][1])
+        ok = o["post"](args, paths[0][1], paths[0][0]) if o.get("post_state") else o["post"](args, paths[0][1])
         bad = not (ok.is_const and ok.val)
     print(f"replay {path}: result={mine} native={got} violates={'yes' if bad else 'no'}")
     if bad:
